@@ -70,6 +70,12 @@ def ops_for(hub, U, letters, rng, regime, tier):
             x.cumsum(l)
         except Exception:
             pass
+    for spec in [full[:2], full[:2][::-1], (full[-1], full[0]), full[1:], (U[full[0]].name, full[1])]:
+        for f in (lambda: x.sum_values_over(spec), lambda: x.sum_values_to(spec)):
+            try:
+                f()
+            except Exception:
+                pass
     # chains on one object: use the operand, derive a result whose dimension positions differ, then address the result
     xr = x.new()
     try:
